@@ -36,6 +36,21 @@ for d in sorted(glob.glob(str(V / 'seeded' / 'C*-*'))):
     meta = json.load(open(os.path.join(d, 'meta.json')))
     need = ' '.join(meta['needs'].split())[:260].replace('|', '\\|')
     out.append('| %s | %s | %s |' % (n, need, last.get(n, 'not run')))
+out.append('\n### Harmless refactors (refactors/<name>/) and the verdict of the check of the property they are anchored in\n')
+lastr = {}
+try:
+    for line in open(V / 'refactors' / 'RESULTS.md'):
+        m = re.match(r'\| (C\d+-\d+) \| (C\d+) \| ([^|]+) \|', line)
+        if m:
+            lastr[m.group(1)] = m.group(3).strip()
+except OSError:
+    pass
+out.append('| refactor | what it rewrites (first lines of its note) | verdict (last run) |\n|---|---|---|')
+for d in sorted(glob.glob(str(V / 'refactors' / 'C*-*'))):
+    n = os.path.basename(d)
+    meta = json.load(open(os.path.join(d, 'meta.json')))
+    need = ' '.join(meta['needs'].split())[:220].replace('|', '\\|')
+    out.append('| %s | %s | %s |' % (n, need, lastr.get(n, 'not run')))
 text = '\n'.join(out)
 if '--update' in sys.argv:
     d = (V / 'DESIGN.md').read_text()
